@@ -354,6 +354,10 @@ func genRenumber(t *rapid.T) Step {
 			st.N = schemeReverse // the relationship ids stay the dense set the library wrote, only the names are foreign
 		}
 	}
+	if rapid.IntRange(0, 2).Draw(t, "nostyles") == 0 {
+		// no styles part: the id the library gives its relationship is free or is some other relationship's
+		st.NoSty = rapid.IntRange(1, noStyMax).Draw(t, "nosty")
+	}
 	return st
 }
 
